@@ -13,13 +13,14 @@ from ..driver import BUILD, COQ, ROOT, Infra
 from .common import Outcome, quiet
 
 ID = "C20"
-COQ_IMPORT = None
-COQ_CASE_TYPE = None
-COQ_CHECK = "interval-validation of the translated closed forms"
+COQ_IMPORT = "Corr.C20"
+COQ_CASE_TYPE = "c20_case"
+COQ_CHECK = "c20_check"
 GENERATORS = [gen_lif.main]
 THEOREMS = ["c20_zero", "c20_semigroup", "c20_ode", "c20_limit", "c20_spike_time", "c20_no_spike", "c20_reset",
             "c20_record_step_partial", "c20_cuba_euler"]
 PROOF_FILES = ["Proofs/LifProofs.v"]
+TRUSTED_LOOP = "Model/EventLoop.v: hand-written model of run_event_based_simulation, tied by exact event-by-event correspondence"
 TRUSTED = ["harness/gen_lif.py: fail-closed Python-AST -> Coq(R) translator of advance_by_delta_t, calc_next_spike_time, "
            "apply_reset and CubaLIFImplementation.forward (the theorems are about the translated terms)",
            "Coquelicot (is_derive, is_lim) and Interval (numeric validation of sampled float results against the R terms)"]
@@ -86,6 +87,20 @@ def gen(rng, tier):
                       "thr": v_leak + rng.choice([0.5, 1.0]), "times": times,
                       "amps": [rng.choice([0.0, 0.3, 0.8, 1.05, 1.5, 2.5]) for _ in range(n)],
                       "dt": rng.choice([1e-3, 2e-3, 5e-3]), "k": rng.choice([2, 3, 5]), "duration": rng.choice([0.05, 0.1])})
+    # the REAL event loop run on an integrate-and-fire neuron with dyadic-rational data (every float operation exact),
+    # compared event by event with the Coq model of the loop (Model/EventLoop.v)
+    E = 60 if tier == "quick" else 800
+    for _ in range(E):
+        n = rng.randint(1, 5)
+        times = sorted(rng.randrange(0, 64) / 16 for _ in range(n))       # multiples of 1/16
+        if rng.random() < 0.4:
+            times[0] = 0.0
+        if n >= 2 and rng.random() < 0.3:
+            j = rng.randrange(1, n); times[j] = times[j - 1]
+        r = rng.choice([0.5, 1.0, 2.0])
+        amps = [rng.choice([0.0, 0.5, 1.0, 2.0, 4.0, -1.0]) for _ in range(n)]     # r * amp is 0 or a power of two
+        cases.append({"kind": "evloop", "r": r, "thr": rng.choice([1.0, 2.0, 0.5, 4.0]), "times": times, "amps": amps,
+                      "dt": rng.choice([0.25, 0.5, 1.0, 0.125, 0.75]), "duration": rng.choice([2.0, 4.0, 3.5, 1.0])})
     K = 40 if tier == "quick" else 400
     for _ in range(K):
         n = rng.randint(1, 4)
@@ -108,7 +123,81 @@ def rk4_first_crossing(p, v, i, tmax, h):
     return math.inf
 
 
+class FloatIF(object):
+    """integrate-and-fire neuron dv/dt = R I with the three methods the event loop calls (duck typing); with
+    dyadic-rational data all its float operations are exact (mirrors Model/EventLoop.v: if_advance/if_next/if_reset)"""
+
+    class _State(object):
+        def __init__(self):
+            self.v = 0.0
+
+    def __init__(self, r, thr):
+        self.r, self.thr = r, thr
+        self.state = FloatIF._State()
+
+    def advance_by_delta_t(self, i_input, delta_t):
+        self.state.v = self.state.v + self.r * i_input * delta_t
+
+    def apply_reset(self):
+        self.state.v = self.state.v - self.thr
+
+    def calc_next_spike_time(self, i_input):
+        drive = self.r * i_input
+        if drive <= 0:
+            return math.inf
+        t = (self.thr - self.state.v) / drive
+        return t if t >= 0 else math.inf
+
+
+def qq(x):
+    fr = Fraction(x)
+    return f"({fr.numerator} # {fr.denominator})"
+
+
+def run_evloop(c):
+    L = load_lif()
+    n = FloatIF(c["r"], c["thr"])
+    try:
+        with quiet():
+            rec = L.run_event_based_simulation(n, L.StepCurrent(list(c["times"]), list(c["amps"])), c["dt"], c["duration"])
+    except BaseException as e:  # noqa: BLE001
+        return Outcome(None, f"run_event_based_simulation raised {type(e).__name__}: {e} on {c}", True, repr(c))
+    volts = "[" + "; ".join(f"({qq(t)}, {qq(v)})" for t, v in zip(rec.times, rec.voltages)) + "]"
+    spikes = "[" + "; ".join(qq(t) for t in rec.spikes) + "]"
+    ql = lambda l: "[" + "; ".join(qq(x) for x in l) + "]"
+    coq = (f"(LoopCase {qq(c['r'])} {qq(c['thr'])} {ql(c['times'])} {ql(c['amps'])} {qq(c['dt'])} {qq(c['duration'])} "
+           f"{volts} {spikes})")
+    # oracle: an independent exact integration of dv/dt = R I(t) with reset by subtraction (Fractions)
+    fail = None
+    v, t0, spk = Fraction(0), Fraction(0), []
+    bps = sorted(set([Fraction(0), Fraction(c["duration"])] + [Fraction(t) for t in c["times"] if 0 <= t <= c["duration"]]))
+    for a, b in zip(bps, bps[1:]):
+        cur = Fraction(0)
+        for t, amp in zip(c["times"], c["amps"]):
+            if Fraction(t) <= a:
+                cur = Fraction(amp)
+        drive = Fraction(c["r"]) * cur
+        t0 = a
+        while drive > 0:
+            tc = t0 + (Fraction(c["thr"]) - v) / drive
+            if tc <= b and len(spk) < 10000:
+                spk.append(tc); v = Fraction(0) + (v + drive * (tc - t0) - Fraction(c["thr"])); t0 = tc
+            else:
+                break
+        v = v + drive * (b - t0)
+    got = [Fraction(t) for t in rec.spikes if Fraction(t) < Fraction(c["duration"])]
+    ref = [t for t in spk if t < Fraction(c["duration"])]
+    # a spike that coincides with an input change is handled before the change (documented priority); the reference
+    # integrates up to the change with the old current as well, so the two must agree exactly
+    if got != ref:
+        fail = (f"spike times of the event loop {[float(x) for x in got[:6]]} ({len(got)}) differ from the exact integration "
+                f"{[float(x) for x in ref[:6]]} ({len(ref)}) for {c}")
+    return Outcome(coq, fail, True, ("evloop",) + tuple(sorted((k, str(v2)) for k, v2 in c.items())))
+
+
 def run(c):
+    if c["kind"] == "evloop":
+        return run_evloop(c)
     if c["kind"] == "lif":
         return run_lif(c)
     if c["kind"] == "loop":
